@@ -447,6 +447,10 @@ def step (st : St) (j : Json) : St × Json :=
   | "val.kinds" =>
     let raw : List Int := (getArr j "values").toList.map fun x => (x.getInt?.toOption.getD 0)
     (st, Json.arr ((NostrRelay.Validate.sortKinds raw).map fun k => Json.num (JsonNumber.fromInt k)).toArray)
+  | "kv.storable" =>
+    let e := KVD.parseEvent (j.getObjVal? "ev" |>.toOption.getD Json.null)
+    let r := MPD.parseRow ((j.getObjVal? "row").toOption.getD Json.null)
+    (st, Json.bool (NostrRelay.KV.checkStorable e (NostrRelay.MP.encodeEvent r).isSome))
   | "mp.pack" =>
     let v := MPD.parseV ((j.getObjVal? "v").toOption.getD Json.null)
     (st, if NostrRelay.MP.packable v then Json.str (toHex (NostrRelay.MP.pack v)) else Json.str "raises")
